@@ -14,6 +14,8 @@ Three correspondences against the real code (in-process, no fakes):
     on generated well-formed workflows and ALL single-fault mutants at ALL positions; compared: accept/reject and
     the reason class; the property predicate is evaluated on the real outcome (exception type, watchdog, and for
     accepted workflows: expanded graph acyclic, identifiers unique, references resolved, configurations resolve).
+    For the CyclicVars faults (one more mention among the variables) the model's own Model.mutate of the well-formed
+    workflow is also compared with the real load of the mutant (check_mutant_case).
  C. every named predicate of the table vs Model.pred_eval on a battery of values."""
 import copy
 import json
@@ -33,7 +35,10 @@ ASSUMPTIONS = [
     'int(str) is modelled for the plain spellings [+-]?[0-9]+ only (no blanks/underscores); '
     'the regular expressions of is_var_reference and ParseDataReference are the recognisers of coq/Ref/Model.v (C09)',
     'the workflow model has one platform, no DoWhile/import documents, no interface, no application dependencies; '
-    'replication appears only through the real loader (primitive=False), not in the model',
+    'replication appears in the load correspondence only through the real loader (primitive=False); the Coq mirror of the '
+    'expansion (coq/Valid/Replicate.v) uses structured (component, replica index) identifiers and is not compared',
+    'global variables are resolved among themselves and stored in place before components are resolved '
+    '(FlowIRConcrete.instance): a global whose transitive mentions are all globals is a constant for the components',
     'the rendering of a structured workflow into a FlowIR dictionary (harness) is trusted',
     'graphFromFlowIR is loaded with primitive=False: with the default primitive=True the loader does not look for '
     'cycles at all (the property speaks about the expanded graph)',
@@ -597,7 +602,76 @@ def load_mutants(w, tier, rng, corpus=False):
     m['gvars'][gl[-1]] = [gl[0]]
     # global variables are resolved on their own at initialisation: shadowing does not help
     out.append(('CyclicVars', True, [], finalize(m)))
+    # ---- CyclicVars as the single fault of the model (Model.mutate (CyclicVars scope a b)): variable a additionally
+    # mentions variable b.  The mutant is faulty when b already depends on a (among the globals, or in what a
+    # component that sees a resolves) or when a component that sees a does not define b.
+    base_term = c_wf(base)
+    extra = []
+    for a in gl:
+        for b in gl + sorted(set(k for c in w['comps'] for k in c['vars']) - set(gl)):
+            m = fresh()
+            m['gvars'][a] = list(m['gvars'][a]) + [b]
+            cyc = b in w['gvars'] and (b == a or depends(w['gvars'], a, b))
+            undefined = False
+            for c in w['comps']:
+                if a in c['vars']:
+                    continue        # this component does not see the global a
+                env = env_of(w, c)
+                if b not in env:
+                    undefined = True
+                elif b == a or depends(env, a, b):
+                    cyc = True
+            extra.append((cyc, undefined, a, None, ('CyclicVars' if cyc else ('UndefinedVarMention' if undefined else 'AddVarMention'),
+                          cyc or undefined, [], finalize(m), (base_term, '(CyclicVars None %s %s)' % (cstr(a), cstr(b))))))
+    for i, c in enumerate(w['comps']):
+        env = env_of(w, c)
+        for a in sorted(c['vars']):
+            for b in sorted(env):
+                m = fresh()
+                m['comps'][i]['vars'][a] = list(m['comps'][i]['vars'][a]) + [b]
+                cyc = b == a or depends(env, a, b)
+                extra.append((cyc, False, a, i, ('CyclicVars' if cyc else 'AddVarMention', cyc, [], finalize(m),
+                              (base_term, '(CyclicVars (Some %d) %s %s)' % (i, cstr(a), cstr(b))))))
+    harmless = []
+    for cyc, undefined, a, i, item in extra:
+        if cyc or undefined:
+            out.append(item)
+        elif not any(a in c.get('idx_uses', []) and (i is None or c is w['comps'][i]) for c in w['comps']):
+            harmless.append(item)      # (a variable used as an array index must stay an integer)
+    if tier == 'quick' and len(harmless) > 4:
+        harmless = rng.sample(harmless, 4)
+    out.extend(harmless)
     return out
+
+
+def env_of(w, c):
+    """what component c resolves: its variables, then the globals it does not shadow (name -> mentioned names)"""
+    env = {k: ([] if gresolved(w['gvars'], k) else v) for k, v in w['gvars'].items() if k not in c['vars']}
+    env.update(c['vars'])
+    return env
+
+
+def gresolved(gvars, n, depth=None):
+    """the global n is resolved among the globals when the workflow is instantiated (every transitive mention is a
+    global variable): it is then a constant for the components (Model.gres)"""
+    depth = len(gvars) if depth is None else depth
+    if depth == 0 or n not in gvars:
+        return False
+    return all(gresolved(gvars, x, depth - 1) for x in gvars[n])
+
+
+def depends(env, a, b):
+    """b mentions a, directly or through other variables of env"""
+    seen, todo = set(), [b]
+    while todo:
+        x = todo.pop()
+        for y in env.get(x, []):
+            if y == a:
+                return True
+            if y in env and y not in seen:
+                seen.add(y)
+                todo.append(y)
+    return False
 
 
 class Watchdog(Exception):
@@ -685,8 +759,10 @@ CORPUS_WF = {'gvars': {'g0': [], 'g1': ['g0']},
 def explore_loads(ctx, items):
     """items: (fault name, faulty, classes, finalized workflow)"""
     terms, metas = [], []
+    mterms, mmetas = [], []
     slow = 0.0
-    for fault, faulty, classes, w in items:
+    for item in items:
+        fault, faulty, classes, w = item[:4]
         flowir = render(w)
         acc, exc, reasons, problems, dt = real_load(flowir)
         slow = max(slow, dt)
@@ -712,6 +788,11 @@ def explore_loads(ctx, items):
                 continue
             terms.append('(%s, %s, %s)' % (c_wf(w), cbool(acc), clist(reasons, cnat)))
             metas.append((case, acc, exc, reasons))
+            if len(item) > 4:
+                # the model's own mutation of the well-formed workflow against the real load of the mutant
+                mterms.append('(%s, %s, %s)' % (item[4][0], item[4][1], cbool(acc)))
+                mmetas.append((case, acc, exc, item[4][1]))
+                ctx.count('B:model-mutate')
         except GenError:
             pass
         if fault == 'none':
@@ -721,6 +802,11 @@ def explore_loads(ctx, items):
         case, acc, exc, reasons = metas[i]
         ctx.disagree(case, {'accepted': acc, 'exception': exc, 'reasons': reasons}, 'Model.accept / Model.reasons differ',
                      'graphFromFlowIR(validate, primitive=False) vs Model.accept')
+    bad = ctx.model_mismatches(HEADER, mterms, '(check_mutant_case component_full)', chunk=200, name='mutate')
+    for i in bad:
+        case, acc, exc, term = mmetas[i]
+        ctx.disagree(case, {'accepted': acc, 'exception': exc}, 'Model.accept (Model.mutate %s w) differs' % term,
+                     'graphFromFlowIR(validate, primitive=False) on the mutant vs Model.accept of Model.mutate')
     if os.environ.get('C11_DEBUG'):
         for dd in ctx.disagreements[:40]:
             print('DIS', dd['impl'], json.dumps(dd['case'], default=str)[:700])
@@ -751,7 +837,7 @@ def run(ctx):
         items.extend(load_mutants(w, ctx.tier, ctx.rng, corpus=(w is wfs[0])))
     explore_loads(ctx, items)
     ctx.rule = ('A: a document with at least one schema error; B: a single-fault mutant (drop/rename/add edge/duplicate '
-                'name/unknown key/wrong type/remove variable/cyclic variables) of a generated 2-5 component workflow; '
+                'name/unknown key/wrong type/remove variable/one more mention among the variables) of a generated 2-5 component workflow; '
                 'C: every (named predicate, value) pair')
     ctx.extra['mutants_per_workflow'] = 'all positions for the structural faults; quick tier samples 6 of %d option ' \
         'sections and 13 of %d option leaves per component, thorough takes all' % (
@@ -766,7 +852,7 @@ def replay(ctx, path):
         print('fault=%s accepted=%s exception=%s reasons=%s problems=%s (%.2fs)' % (c.get('fault'), acc, exc, reasons,
                                                                                   problems, dt))
         bad = (exc not in (None, 'ExperimentInvalidConfigurationError')) or (acc and c.get('fault') not in
-                                                                             ('none', 'AddForwardEdge')) or problems
+                                                                             ('none', 'AddForwardEdge', 'AddVarMention')) or problems
         if bad:
             print('REPRODUCED: %s' % d.get('what', 'property violation'))
         return 1 if bad else 0
